@@ -317,12 +317,12 @@ def render(t):
     slist('typeNames', t['type_names'], 'accepted by the `type` setter')
     o.append('def defaultSimulator : List Char := %s' % lstr(t['default_simulator']))
     o.append('def defaultEos : List Char := %s\n' % lstr(t['default_eos']))
-    nat3('mopA2T', t['mop_a2t'][False], 'AUTOUGH2->TOUGH2, MP off: [position][digit] -> digit left at that position (LINEQ empty)')
-    nat3('mopA2TMP', t['mop_a2t'][True], 'AUTOUGH2->TOUGH2, MP on')
-    nat3('mopT2A', t['mop_t2a'][False], 'TOUGH2->AUTOUGH2, MP off')
-    nat3('mopT2AMP', t['mop_t2a'][True], 'TOUGH2->AUTOUGH2, MP on')
+    nat3('tblMopA2T', t['mop_a2t'][False], 'AUTOUGH2->TOUGH2, MP off: [position][digit] -> digit left at that position (LINEQ empty)')
+    nat3('tblMopA2TMP', t['mop_a2t'][True], 'AUTOUGH2->TOUGH2, MP on')
+    nat3('tblMopT2A', t['mop_t2a'][False], 'TOUGH2->AUTOUGH2, MP off')
+    nat3('tblMopT2AMP', t['mop_t2a'][True], 'TOUGH2->AUTOUGH2, MP on')
     o.append('/-- number of conductivity rescalings: (simulator string, MP off table, MP on table), [position][digit] -/')
-    o.append('def condA2T : List (List Char × List (List Nat) × List (List Nat)) := [')
+    o.append('def tblCondA2T : List (List Char × List (List Nat) × List (List Nat)) := [')
     rows = []
     for s, kt in t['cond_a2t']:
         def tab(x):
